@@ -73,7 +73,69 @@ def run_update(args):
     return {"err": err, "ran": ran, "removed": removed, "others": others}
 
 
+def run_update_multi(args):
+    """several vms updated in one call by several workers: how often was every setup test executed overall"""
+    vms, nets, seed = args
+    import collections
+    import logging
+    import random
+    logging.disable(logging.CRITICAL)
+    os.environ["HOME"] = os.path.join(os.environ.get("VERIF_WORK", "/tmp"), f"home-{os.getpid()}")
+    os.makedirs(os.environ["HOME"], exist_ok=True)
+    os.chdir(os.environ["HOME"])
+    from avocado_i2n import intertest_setup
+    config = toolseam.base_config({vm: VMS[vm] for vm in vms}, nets)
+    with toolseam.Recorder(random.Random(seed)) as rec:
+        try:
+            intertest_setup.update(config, tag="1r")
+            err = None
+        except Exception as e:
+            err = type(e).__name__
+    ran = collections.Counter()
+    for c in rec.calls:
+        if c[0] == "run":
+            p = c[3]
+            if p.get("type") == "shared_configure_install":
+                continue
+            sts = [v for k, v in p.items() if k.startswith("set_state") and not k.endswith("on_error") and v and v != "root"]
+            ran[(p.get("vms"), sts[0] if sts else "leaf:" + c[2].split(".vms.")[0])] += 1
+    return {"err": err, "ran": sorted([list(k) + [v] for k, v in ran.items()]), "workers_used": sorted({c[1] for c in rec.calls if c[0] == "run"})}
+
+
+def multi_part(ctx, replay):
+    rng = ctx.rng
+    if replay and "multi" in replay["data"]:
+        todo = [(replay["data"]["multi"][0], replay["data"]["multi"][1], replay["data"].get("seed", 1))]
+    elif replay:
+        return
+    else:
+        combos = [(vms, nets) for vms in (["vm1", "vm2"], ["vm1", "vm2", "vm3"], ["vm2", "vm3"], ["vm1", "vm3"])
+                  for nets in ("net1 net2 net3", "net1 net2 net3 net4", "net1 net2", "cluster1.net6 cluster1.net7 cluster2.net6")]
+        rng.shuffle(combos)
+        todo = [(vms, nets, rng.randrange(10 ** 6)) for vms, nets in combos[: (len(combos) if ctx.thorough else 5)]]
+        if ctx.thorough:
+            todo += [(vms, nets, rng.randrange(10 ** 6)) for vms, nets in combos]
+    with concurrent.futures.ProcessPoolExecutor(max_workers=12) as ex:
+        outs = list(ex.map(run_update_multi, todo))
+    bad = []
+    for (vms, nets, seed), o in zip(todo, outs):
+        # default update: from install to customize of every selected vm, shared by all workers
+        expect = sorted([vm, st, 1] for vm in vms for st in ("install", "customize"))
+        if o["err"] or o["ran"] != expect:
+            bad.append(((vms, nets, seed), o, expect))
+    ctx.obligation("monitor:path-tests-executed-once-across-workers", "monitor", not bad,
+                   f"{len(bad)} of {len(todo)} multi-vm updates executed a path test more than once, not at all, or a test outside the path")
+    for (vms, nets, seed), o, expect in bad[:1]:
+        ctx.fail("C15:update:path-test-repeated-or-missing", f"update of {vms} on {nets}: executions {o['ran']} instead of once each of {expect}",
+                 {"multi": [vms, nets], "seed": seed, "impl": o, "expected": expect}, True)
+    ctx.count(len(todo), sum(1 for t in todo if len(t[1].split()) > 2))
+    ctx.coverage["multi_vm_updates"] = [{"vms": t[0], "nets": t[1], "workers_used": o["workers_used"]} for t, o in zip(todo, outs)]
+
+
 def run(ctx, replay=None):
+    multi_part(ctx, replay)
+    if replay and "multi" in replay["data"]:
+        return
     rng = ctx.rng
     os.environ["VERIF_WORK"] = ctx.work
     vm = "vm1"
